@@ -1,6 +1,6 @@
 (** Properties/C17.v — "Bytes before the header do not change what is read".
     Only statements, each closed by [exact] of a lemma proved in XRef/. *)
-From PdfV Require Import Base.Prelude Gen.Generated XRef.Model XRef.Spec XRef.HeaderProofs XRef.FrontProofs.
+From PdfV Require Import Base.Prelude Gen.Generated XRef.Model XRef.Spec XRef.HeaderProofs XRef.FrontProofs XRef.LexShift XRef.At XRef.ParseShift XRef.PrefixProofs Syn.Prim Syn.Parser.
 Set Warnings "-notation-overridden".   (* also ends the import list for the dependency scanner of tools/vplib *)
 
 (** A marker without proper border (no proper suffix is a prefix) cannot straddle the end of a prefix
@@ -97,6 +97,49 @@ Theorem C17_resolve_overflow_refuted_before_fix :
     resolve_ref N (fun _ _ => Ok 0) (fun _ _ _ => Ok 0) 2 (p ++ f) (lenN p) t id = Err E_BOUNDS.
 Proof. exact resolve_prefix_overflow_refuted. Qed.
 Print Assumptions C17_resolve_overflow_refuted_before_fix.
+
+(** The lexer position only labels (Lexer::with_offset): the same bytes lexed at a position moved by d give the
+    same lexeme, its start and the lexer state moved by d. *)
+Theorem C17_lexer_position : forall d s, next_word (shift_lx d s) = rmap (shift_word d) (next_word s).
+Proof. exact next_word_shift. Qed.
+Print Assumptions C17_lexer_position.
+
+(** … and so does the object parser: same value, file ranges of streams moved by d (shift_prim), for all
+    inputs, flags, depths, contexts and fuels — the premise "the parser reads only the slice it is given and
+    the offset only labels reported ranges" of the theorems above, proved for the shared parser model. *)
+Theorem C17_parser_position : forall d fuel R cx flags depth s,
+  parse_fuel fuel R cx flags depth (shift_lx d s) = rmap (shift_pv d) (parse_fuel fuel R cx flags depth s).
+Proof. intros d fuel. exact (proj1 (parse_shift d fuel)). Qed.
+Print Assumptions C17_parser_position.
+
+(** The oracle premises of C17_load_invariant and C17_resolve_invariant hold for the concrete readers of
+    classic-table files (XRef/At.v) … *)
+Theorem C17_xref_at_prefix : forall (R : resolver) (tid : dict -> N) (p f : bytes),
+  (forall e, tid (shift_dict (lenN p) e) = tid e) ->
+  forall pos, xref_at_tables R tid (p ++ f) (lenN p + pos) = xref_at_tables R tid f pos.
+Proof. exact xref_at_tables_prefix. Qed.
+Print Assumptions C17_xref_at_prefix.
+
+Theorem C17_obj_at_prefix : forall (R : resolver) (p f : bytes) allow flags pos,
+  obj_at_parse R allow flags (p ++ f) (lenN p + pos) = rmap (shift_prim (lenN p)) (obj_at_parse R allow flags f pos).
+Proof. exact obj_at_parse_prefix. Qed.
+Print Assumptions C17_obj_at_prefix.
+
+(** … hence, with NO parser oracle: for every file f with the header at offset 0 (well-formed or not) and every
+    prefix p that does not contain the marker and leaves the header inside the window, loading through classic
+    tables gives the same table and the same trailer, and every object number resolves to the same outcome with
+    the file ranges of streams moved by |p|.  (Cross-reference streams and object streams are outside these
+    concrete readers: there the theorems above keep their oracle premises.) *)
+Theorem C17_tables_invariant : forall (R : resolver) (tid : dict -> N) allow flags (p f : bytes),
+  (forall e, tid (shift_dict (lenN p) e) = tid e) ->
+  lenN (p ++ f) < usize_max ->
+  starts_with xr_header f = true -> find_sub xr_header p = None -> lenN p + lenN xr_header <= xr_header_window ->
+  (forall s t i, load (xref_at_tables R tid) f = Ok (s, t, i) -> s = 0 /\ load (xref_at_tables R tid) (p ++ f) = Ok (lenN p, t, i)) /\
+  (forall t fuel id,
+     resolve_ref prim (obj_at_parse R allow flags) (fun _ _ _ => Err E_OTHER) fuel (p ++ f) (lenN p) t id
+     = rmap (shift_prim (lenN p)) (resolve_ref prim (obj_at_parse R allow flags) (fun _ _ _ => Err E_OTHER) fuel f 0 t id)).
+Proof. exact tables_prefix_invariant. Qed.
+Print Assumptions C17_tables_invariant.
 
 (** scan before the repair (file.rs:198-201): unshifted range end, lexer offset 0, unwrap. *)
 Theorem C17_scan_refuted_before_fix :
